@@ -115,7 +115,7 @@ SPECS.update({
                  "against a table computed from a refwire walk of the same bytes (last occurrence / all occurrences with packed runs expanded / "
                  "not-found / not-defined / wire-type mismatch / overflow); non-trivial when the message has >=2 fields and the tag is present; "
                  "distinct by (accessor, wire type of the field, outcome class, mode, entry point, nesting depth)"),
-        "explanation": "messages: 1-12 fields, nesting <=3, all four wire types, repeated and packed runs, empty strings and empty nested messages, field numbers up to 2^29-1, every 50th case the empty message; definitions over present/absent/nested tags with negative twins; entry points Decode function, Decoder safe, Decoder fast; three mutated/random byte strings per message are decoded and every accessor called with only 'no panic' judged; every 3rd case additionally keeps four results of one Decoder alive together (interleaved reads, sibling Close, recycled decode) and re-reads nested results handed out earlier; the one-Decoder scenario rotates WithMaxBufferSize(-1,0,1,2) and decodes again after everything was closed; every 4th case changes the SAME Def object in place (tag swapped, nested definition extended) and calls the Decode function again; nested results obtained from NestedResults are closed by the caller in half of the cases (must disturb neither the parent nor later decodes with the same decoder); every other input is placed with spare capacity behind it (cap > len, as the payload of a nested field or a pooled buffer has): reading behind len() does not panic there and shows as success on a truncated item or a cursor beyond the input",
+        "explanation": "messages: 1-12 fields, nesting <=3, all four wire types, repeated and packed runs, empty strings and empty nested messages, field numbers up to 2^29-1, every 50th case the empty message; definitions over present/absent/nested tags with negative twins; entry points Decode function, Decoder safe, Decoder fast; three mutated/random byte strings per message are decoded and every accessor called with only 'no panic' judged; every 3rd case additionally keeps four results of one Decoder alive together (interleaved reads, sibling Close, recycled decode) and re-reads nested results handed out earlier; the one-Decoder scenario rotates WithMaxBufferSize(-1,0,1,2) and decodes again after everything was closed; every 4th case changes the SAME Def object in place (tag swapped, nested definition extended) and calls the Decode function again; nested results obtained from NestedResults are closed by the caller in half of the cases (must disturb neither the parent nor later decodes with the same decoder); every other input is placed with spare capacity behind it (cap > len, as the payload of a nested field or a pooled buffer has): reading behind len() does not panic there and shows as success on a truncated item or a cursor beyond the input; a length prefix that is a 10-byte varint with bits beyond 64 may be refused (as protowire does) or read with the excess bits dropped (as csproto reads every varint) - then the cursor must be exactly behind the item of that length",
         "assumptions": TRUST_LAZY + ["a packed run containing a 10-byte varint with overflow bits is outside the precondition and not judged"],
     },
     "C14": {
